@@ -82,6 +82,9 @@ type GenSpec struct {
 	DB string `json:"db,omitempty"`
 	// SkipInv: construct apps with crisis genesis-invariant assertion skipped
 	SkipInv bool `json:"skipInv,omitempty"`
+	// ManyDenoms: that many further foreign denominations d000, d001, ... (all sorting before the native one) in the bank
+	// supply: listings longer than the bank's default page of 100 entries
+	ManyDenoms int `json:"manyDenoms,omitempty"`
 	// InvPeriod: node-local --inv-check-period (crisis asserts every registered invariant every n-th block; 0 = never)
 	InvPeriod uint `json:"invPeriod,omitempty"`
 }
@@ -316,10 +319,14 @@ func (w *World) buildGenesis() (app.GenesisState, error) {
 	genAccs = append(genAccs, authtypes.NewBaseAccount(v.Addr, v.Priv.PubKey(), 0, 0))
 	// two foreign denominations that sort before / after the native one ("aaa" < "nund" < "other" < "stake" < "zzz"):
 	// supply listings are paged across them (C17)
-	bals = append(bals, banktypes.Balance{Address: v.Addr.String(), Coins: sdk.NewCoins(sdk.NewInt64Coin(StakeDen, 1000000000),
+	vcoins := sdk.NewCoins(sdk.NewInt64Coin(StakeDen, 1000000000),
 		sdk.NewInt64Coin("aaa", 7), sdk.NewInt64Coin("zzz", 9),
 		// ... and an IBC voucher denomination (upper-case hexadecimal hash: denominations are case-sensitive)
-		sdk.NewInt64Coin(IBCDen, 5))})
+		sdk.NewInt64Coin(IBCDen, 5))
+	for i := 0; i < g.ManyDenoms; i++ {
+		vcoins = vcoins.Add(sdk.NewInt64Coin(fmt.Sprintf("d%03d", i), int64(1+i)))
+	}
+	bals = append(bals, banktypes.Balance{Address: v.Addr.String(), Coins: vcoins})
 	w.Names = append([]string{}, g.Accts...)
 	for _, n := range g.Accts {
 		ac := w.addAcct(n)
